@@ -184,13 +184,29 @@ def rule_b(ctx, ix):
         unparse(sweeps[0].args[0]) == unparse(pops[0][1])
     ctx.ob(R, f.construct, 'the dependent sweep follows the removal, for the removed identifier', ok,
            detail='Data.remove_component does not sweep the dependents of the removed identifier after popping it', where=f.where)
-    # selection by get_from_ids membership
+    # selection by get_from_ids membership: the identifier that was removed - the parameter, or the entry of a work list that
+    # started with it
     p = g.params[1]
+    from ..util import enclosing
+    pm_g = parent_map(g.node)
+    worklists = {}        # name of a removed-identifier variable -> the list it is popped from
+    for st in ast.walk(g.node):
+        if isinstance(st, ast.Assign) and len(st.targets) == 1 and isinstance(st.targets[0], ast.Name) and isinstance(st.value, ast.Call) \
+                and call_name(st.value) in ('pop', 'popleft') and isinstance(st.value.func.value, ast.Name):
+            worklists[st.targets[0].id] = st.value.func.value.id
+    seeded_lists = {st.targets[0].id for st in ast.walk(g.node) if isinstance(st, ast.Assign) and len(st.targets) == 1
+                    and isinstance(st.targets[0], ast.Name) and isinstance(st.value, (ast.List, ast.Tuple)) and
+                    any(unparse(e) == p for e in st.value.elts)}
+    removed_vars = {p} | {v for v, l in worklists.items() if l in seeded_lists}
+    for n_ in ast.walk(g.node):
+        if isinstance(n_, ast.comprehension) and isinstance(n_.iter, ast.Name) and n_.iter.id in seeded_lists and isinstance(n_.target, ast.Name):
+            removed_vars.add(n_.target.id)
+        if isinstance(n_, ast.For) and isinstance(n_.iter, ast.Name) and n_.iter.id in seeded_lists and isinstance(n_.target, ast.Name):
+            removed_vars.add(n_.target.id)
     sel = [n for n in ast.walk(g.node) if isinstance(n, ast.Compare) and isinstance(n.ops[0], ast.In)
-           and unparse(n.left) == p and 'get_from_ids' in unparse(n.comparators[0])]
+           and unparse(n.left) in removed_vars and 'get_from_ids' in unparse(n.comparators[0])]
     ctx.ob(R, g.construct, 'dependents are those whose link reads the removed identifier', bool(sel),
            detail='the dependent sweep no longer selects derived components by `removed in link.get_from_ids()`', where=g.where)
-    pm_g = parent_map(g.node)
     scans = [(it, tg, owner, kind) for it, tg, owner, kind in iterations(g.node) if 'derived_components' in unparse(it)]
     ok = len(scans) == 1
     if ok:
@@ -198,12 +214,29 @@ def rule_b(ctx, ix):
         ok = not any(isinstance(x, (ast.Break, ast.Return)) for x in ast.walk(owner)) if kind == 'for' else not short_circuits(pm_g, owner)
     ctx.ob(R, g.construct, 'every derived component is examined', ok,
            detail='the dependent sweep does not examine every derived component', where=g.where)
-    rec = [c for c in calls_in(g.node) if unparse(c.func) == '%s.remove_component' % g.self_name]
+    # transitive: once a dependent is removed, ITS dependents are looked for as well - through remove_component (which sweeps),
+    # through the sweep itself, or by putting it on the work list the sweep drains.  (Whether each removal is announced is C17.)
+    rec = [c for c in calls_in(g.node) if unparse(c.func) in ('%s.remove_component' % g.self_name, '%s.%s' % (g.self_name, g.name)) and c.args]
     direct = key_removals(g.node, '_components')
-    ctx.ob(R, g.construct, 'dependents are removed through remove_component (recursion => transitive closure, messages)',
-           bool(rec) and not direct,
-           detail='the dependent sweep removes dependents %s: attributes derived from a removed dependent survive (and no message '
-                  'is sent)' % ('by popping from the dict' if direct else 'not at all'), where=g.where)
+    closed, why = bool(rec) and not direct, 'not at all'
+    if direct:
+        closed, why = True, ''
+        for node_, key_ in direct:
+            k = unparse(key_)
+            again = any(unparse(c.args[0]) == k for c in rec)
+            wl = False
+            w = enclosing(pm_g, node_, (ast.While,))
+            if w is not None:
+                for c in calls_in(w):
+                    if call_name(c) in ('append', 'add', 'extend', 'appendleft') and isinstance(c.func, ast.Attribute) and \
+                            isinstance(c.func.value, ast.Name) and c.func.value.id in set(worklists.values()) & seeded_lists and \
+                            c.args and unparse(c.args[0]) == k:
+                        wl = True
+            if not (again or wl):
+                closed, why = False, 'by popping `%s` from the dict in a single pass' % k
+    ctx.ob(R, g.construct, 'the sweep is transitive: the dependents of a removed dependent are removed too', closed,
+           detail='the dependent sweep removes dependents %s: attributes derived from a removed dependent survive when they come '
+                  'earlier in the component order than the attribute they depend on' % why, where=g.where)
     bad = common.check_iter_mutation(ctx, R, g)
 
 
